@@ -5,10 +5,10 @@ from harness.common.rng import Rng
 from harness.props import sslink_util as U
 
 PROP = "C37"
-LEAN_MODULES = ["LunaVerif.Props.C37"]
+LEAN_MODULES = ["LunaVerif.Props.C37", "LunaVerif.Props.C37Live"]
 DRIVER = "Driver/C37.lean"
 REQUIRED_THEOREMS = ["accept_iff_crcs_and_seq", "queue_delivers_accepted_in_order_once", "lgood_carries_seq",
-                     "lbad_then_ignore_until_retry", "credit_invariant"]
+                     "lbad_then_ignore_until_retry", "credit_invariant", "lgood_within", "lcrd_within"]
 RULE = ("cases = closed-loop link partner (header stream: good / bad CRC-5 / bad CRC-16 / wrong sequence / "
         "retries after LBAD, honouring credits and LGOODs) x consumer timing x link-command back-pressure x "
         "retry/keepalive/power-state strobes; plus a 'chaos' stream that ignores credits and flow control "
@@ -19,9 +19,13 @@ ASSUMPTIONS = [
     "the partner never has more than four unacknowledged headers in flight (it has four transmit buffers)",
     "CRC reference functions: Core/Crc.lean usb3Crc5/usb3Crc16 (Python twin validated against compute_usb_crc5 and "
     "HeaderPacketCRC on every run; model vs gateware compared on every header, good and corrupted)",
+    "liveness theorems only: bounded fairness of the link-command generator's sink - never K consecutive cycles "
+    "without source.ready (K universally quantified)",
 ]
-PARTIAL = ("safety only: that a pending LGOOD/LCRD/LBAD is eventually transmitted depends on source.ready being "
-           "granted and is checked by the monitor on the real traces (bounded wait), not proved")
+PARTIAL = ("liveness is proved for LGOOD and LCRD (lgood_within, lcrd_within: within K*(40+4r) / K*(52+4r) cycles when "
+           "source.ready is granted at least once every K cycles, r = retry_required pulses in the window); that a "
+           "pending LBAD / LRTY / LXU / keepalive is eventually transmitted is checked by the monitor on the real traces "
+           "(bounded wait), not proved")
 
 IN_NAMES = ["sink_valid", "sink_data", "sink_ctrl", "source_ready", "enable", "usb_reset", "queue_ready",
             "retry_received", "retry_required", "keepalive_required", "reject_power_state",
